@@ -10,8 +10,14 @@ require (
 )
 
 require (
+	github.com/xdg-go/pbkdf2 v1.0.0 // indirect
+	github.com/xdg-go/scram v1.1.2 // indirect
+	github.com/xdg-go/stringprep v1.0.4 // indirect
 	golang.org/x/mod v0.22.0 // indirect
-	golang.org/x/sync v0.10.0 // indirect
+	golang.org/x/sync v0.12.0 // indirect
+	golang.org/x/text v0.23.0 // indirect
 )
 
 replace github.com/segmentio/kafka-go => /repo
+
+replace golang.org/x/sync => golang.org/x/sync v0.10.0
